@@ -289,7 +289,7 @@ impl BoxedUnsatInt {
     /// It's provided explicitly so multiple values can be padded to the same size.
     #[allow(trivial_numeric_casts)]
     fn from_uint_widened(input: &BoxedUint, nlimbs: usize) -> BoxedUnsatInt {
-        debug_assert!(nlimbs >= unsat_nlimbs_for_sat_nlimbs(input.nlimbs()));
+        assert!(nlimbs >= unsat_nlimbs_for_sat_nlimbs(input.nlimbs()));
 
         // Workaround for 32-bit platforms: if the input is a single limb, it will be smaller input
         // than is usable for Bernstein-Yang with is currently natively 64-bits on all targets
@@ -318,7 +318,7 @@ impl BoxedUnsatInt {
             bits_precision = 64;
         }
 
-        debug_assert_eq!(self.nlimbs(), safegcd_nlimbs!(bits_precision as usize));
+        assert_eq!(self.nlimbs(), safegcd_nlimbs!(bits_precision as usize));
         assert!(
             !bool::from(self.is_negative()),
             "can't convert negative number to BoxedUint"
@@ -417,7 +417,7 @@ impl BoxedUnsatInt {
 
     /// Widen self to the given number of limbs.
     pub fn widen(self, nlimbs: usize) -> Self {
-        debug_assert!(nlimbs >= self.nlimbs(),);
+        assert!(nlimbs >= self.nlimbs());
         let mut limbs = self.0.into_vec();
         limbs.resize(nlimbs, 0);
         Self(limbs.into())
